@@ -130,6 +130,25 @@ def fd_ownership(chk, db, rule):
         if len(fdf) != 1:
             chk.unanalysable(rule, q, 'cannot identify the descriptor field of %s' % q)
             continue
+        # close(2) is issued at most once per owned descriptor: never from inside a loop (after an interrupted close the descriptor is
+        # already released on Linux, and a retry closes whatever another thread opened under that number meanwhile)
+        for f in fns:
+            if 'body' not in f:
+                continue
+            def in_loop_close(node, inside):
+                if isinstance(node, list):
+                    return any(in_loop_close(x, inside) for x in node)
+                if not isinstance(node, dict):
+                    return False
+                if node.get('k') == 'call' and ir.callee_name(node) == 'close' and not (node.get('callee') or {}).get('rec') and inside:
+                    return True
+                ins = inside or node.get('k') in ('for', 'while', 'do', 'rfor')
+                return any(in_loop_close(v, ins) for kk, v in node.items() if kk not in ('callee', 'loc'))
+            if any(ir.callee_name(c) == 'close' for c in ir.calls(f['body'])):
+                bad = in_loop_close(f['body'], False)
+                chk.decide(not bad, rule, facts.site(f) + ' once', '%s::%s: ::close() is %s' % (q.replace('nop::', ''), f['n'],
+                           'called from inside a loop (retried): a second close hits a descriptor number that may already belong to someone else' if bad else 'not retried'),
+                           function=ir.fn_label(f))
         fd = fdf[0]
         closed = []
 
